@@ -670,3 +670,373 @@ Proof.
   inversion E; subst a' s. exact H.
 Qed.
 End WalkMachine.
+
+(* ------------------------------------------------------------------------------------------ *)
+(* Part D: the request parser conserves the walk                                                *)
+(* ------------------------------------------------------------------------------------------ *)
+Section WalkRequest.
+Variable norm : bytes -> bytes.
+Variable maxc : N.
+
+(* the framing position of a request-parser state *)
+Definition sk (s : state) : bool := match s with HeaderValues _ _ _ | ParamsValues _ _ _ _ => true | _ => false end.
+Definition sprem (s : state) : N :=
+  match s with
+  | HeaderSkip p _ | ParamsSkip _ p _ | DoneSkip _ p _ | Params _ p _ | HeaderValues _ p _ | ParamsValues _ _ p _ => p
+  | _ => 0
+  end.
+Definition spad (s : state) : N :=
+  match s with
+  | HeaderSkip _ q | ParamsSkip _ _ q | DoneSkip _ _ q | Params _ _ q | HeaderValues _ _ q | ParamsValues _ _ _ q => q
+  | _ => 0
+  end.
+Definition WS (s : state) (w : bytes) : N * bool := WK (sk s) (sprem s) (spad s) w.
+Definition is_fatal (s : state) : bool := match s with Fatal _ => true | _ => false end.
+
+Definition plain (s : state) (p q : N) : Prop := sk s = false /\ sprem s = p /\ spad s = q /\ is_fatal s = false.
+
+Lemma WS_plain s p q w : plain s p q -> WS s w = WK false p q w.
+Proof. intros (H1 & H2 & H3 & _). unfold WS. rewrite H1, H2, H3. reflexivity. Qed.
+
+Lemma into_skip_plain wrap nxt p q : (forall p' q', plain (wrap p' q') p' q') -> plain nxt 0 0 ->
+  plain (into_skip wrap nxt p q) p q.
+Proof.
+  intros Hw Hn. destruct (into_skip_cases wrap nxt p q) as [(-> & -> & E)|(_ & E)]; rewrite E; [exact Hn|apply Hw].
+Qed.
+
+Lemma header_skip_plain p q : plain (header_skip_to p q) p q.
+Proof. apply into_skip_plain; [intros; repeat split|repeat split]. Qed.
+Lemma params_skip_plain i p q : plain (params_skip_to i p q) p q.
+Proof. apply into_skip_plain; [intros; repeat split|repeat split]. Qed.
+Lemma done_skip_plain r p q : plain (into_skip (DoneSkip r) (Done r) p q) p q.
+Proof. apply into_skip_plain; [intros; repeat split|repeat split]. Qed.
+
+(* the whole payload lies in front *)
+Lemma WK_through k p q w : p <= len w -> WK k p q w = padd (if p =? 0 then 0 else b2n k) (WK false 0 q (drop p w)).
+Proof.
+  intros H. destruct (N.eqb_spec p 0) as [->|Hp].
+  - rewrite drop_0, padd_0. apply WK_k0.
+  - rewrite WK_prem by lia. destruct (N.ltb_spec (len w) p); [lia|reflexivity].
+Qed.
+
+Lemma WK_skip p q w : p + q <= len w -> WK false p q w = WK false 0 0 (drop (p + q) w).
+Proof.
+  intros H. rewrite WK_through by lia. cbn [b2n]. replace (if p =? 0 then 0 else 0) with 0 by (destruct (p =? 0); reflexivity).
+  rewrite padd_0. rewrite (WK_pad_adv false q (drop p w) q) by (rewrite ?len_drop; lia).
+  rewrite N.sub_diag, drop_drop. reflexivity.
+Qed.
+
+(* the postcondition of one sub-state drive *)
+Definition d_law (s : state) (d : bytes) (res : flow * bytes) : Prop :=
+  bytes_ok d ->
+  match res with
+  | (PANIC _, _) => True
+  | (Break r s', o) =>
+      (is_fatal s' = false -> whole o /\ forall u, WS s (d ++ u) = padd (snd (counts o)) (WS s' (r ++ u))) /\
+      (is_final s' = false -> fst (WS s' r) = 0)
+  | (Continue r s', o) =>
+      is_fatal s' = false -> whole o /\ forall u, WS s (d ++ u) = padd (snd (counts o)) (WS s' (r ++ u))
+  end.
+
+Lemma d_law_pre s d s0 d0 res : (forall u, WS s (d ++ u) = WS s0 (d0 ++ u)) -> (bytes_ok d -> bytes_ok d0) ->
+  d_law s0 d0 res -> d_law s d res.
+Proof.
+  intros HW Hb H Hd. specialize (H (Hb Hd)). destruct res as [[r s'|r s'|n] o]; [| |exact I].
+  - destruct H as [H1 H2]. split; [|exact H2]. intros Hf. destruct (H1 Hf) as [A B]. split; [exact A|].
+    intros u. rewrite HW. apply B.
+  - intros Hf. destruct (H Hf) as [A B]. split; [exact A|]. intros u. rewrite HW. apply B.
+Qed.
+
+Lemma nil_law : whole [] /\ snd (counts []) = 0.
+Proof. split; [apply whole_nil|reflexivity]. Qed.
+
+Lemma skip_law wrap nxt p q d s : (forall p' q', plain (wrap p' q') p' q') -> plain nxt 0 0 -> plain s p q ->
+  d_law s d (skip_drive wrap nxt p q d, []).
+Proof.
+  intros Hw Hn Hs _. unfold skip_drive. cbv zeta.
+  destruct (N.ltb_spec (len d) p) as [H1|H1]; [|destruct (N.ltb_spec (len d) (p + q)) as [H2|H2]].
+  - split.
+    + intros _. split; [apply whole_nil|]. intros u. rewrite counts_nil. cbn [snd app]. rewrite padd_0.
+      rewrite (WS_plain s p q _ Hs), (WS_plain _ _ _ _ (Hw (p - len d) q)).
+      rewrite (WK_adv false p q (d ++ u) (len d)) by (rewrite ?len_app; try lia; left; reflexivity).
+      rewrite drop_len_app. reflexivity.
+    + intros _. rewrite (WS_plain _ _ _ _ (Hw (p - len d) q)), WK_nil. reflexivity.
+  - split.
+    + intros _. split; [apply whole_nil|]. intros u. rewrite counts_nil. cbn [snd app]. rewrite padd_0.
+      rewrite (WS_plain s p q _ Hs), (WS_plain _ _ _ _ (Hw 0 (q - (len d - p)))).
+      rewrite WK_through by (rewrite len_app; lia). cbn [b2n].
+      replace (if p =? 0 then 0 else 0) with 0 by (destruct (p =? 0); reflexivity). rewrite padd_0.
+      rewrite (WK_pad_adv false q _ (len d - p)) by (rewrite ?len_drop, ?len_app; lia).
+      rewrite drop_drop. replace (p + (len d - p)) with (len d) by lia. rewrite drop_len_app. reflexivity.
+    + intros _. rewrite (WS_plain _ _ _ _ (Hw 0 (q - (len d - p)))), WK_nil. reflexivity.
+  - intros _. split; [apply whole_nil|]. intros u. rewrite counts_nil. cbn [snd]. rewrite padd_0.
+    rewrite (WS_plain s p q _ Hs), (WS_plain nxt 0 0 _ Hn). rewrite WK_skip by (rewrite len_app; lia).
+    rewrite drop_app_le by lia. reflexivity.
+Qed.
+
+(* the padding stage of a GetValues sub-state *)
+Lemma finish_law (wrap : N -> N -> N -> state) nxt q vars x o :
+  (forall v p' q', sk (wrap v p' q') = true /\ sprem (wrap v p' q') = p' /\ spad (wrap v p' q') = q') -> plain nxt 0 0 ->
+  match values_finish wrap nxt q vars x o with
+  | (Break r s', o') => o' = o /\ is_final s' = false /\ (forall u, WK false 0 q (x ++ u) = WS s' (r ++ u)) /\ fst (WS s' r) = 0
+  | (Continue r s', o') => o' = o /\ is_fatal s' = false /\ forall u, WK false 0 q (x ++ u) = WS s' (r ++ u)
+  | _ => True
+  end.
+Proof.
+  intros Hw Hn. unfold values_finish. destruct (N.ltb_spec (len x) q) as [H|H].
+  - split; [reflexivity|]. destruct (Hw vars 0 (q - len x)) as (W1 & W2 & W3).
+    assert (Hfin : is_final (wrap vars 0 (q - len x)) = false).
+    { destruct (wrap vars 0 (q - len x)); try reflexivity; discriminate W1. }
+    split; [exact Hfin|]. unfold WS. rewrite W1, W2, W3. split.
+    + intros u. cbn [app]. rewrite (WK_pad_adv false q (x ++ u) (len x)) by (rewrite ?len_app; lia).
+      rewrite drop_len_app. apply WK_k0.
+    + rewrite WK_nil. reflexivity.
+  - split; [reflexivity|]. split; [apply Hn|].
+    intros u. rewrite (WS_plain nxt 0 0 _ Hn).
+    rewrite (WK_pad_adv false q (x ++ u) q) by (rewrite ?len_app; lia).
+    rewrite N.sub_diag, drop_app_le by lia. reflexivity.
+Qed.
+
+Lemma values_law (wrap : N -> N -> N -> state) nxt vars p q d s :
+  (forall v p' q', sk (wrap v p' q') = true /\ sprem (wrap v p' q') = p' /\ spad (wrap v p' q') = q') -> plain nxt 0 0 ->
+  sk s = true -> sprem s = p -> spad s = q ->
+  d_law s d (values_drive maxc wrap nxt vars p q d).
+Proof.
+  intros Hw Hn S1 S2 S3 _. rewrite values_drive_eq.
+  assert (HWS : forall w, WS s w = WK true p q w) by (intros w; unfold WS; rewrite S1, S2, S3; reflexivity).
+  destruct (N.ltb_spec 0 p) as [Hp|Hp].
+  - destruct (nv_run (take (N.min (len d) p) d)) as [ps rest] eqn:En.
+    pose proof (nv_run_rest_len (take (N.min (len d) p) d)) as Hr. rewrite En in Hr. cbn [snd] in Hr. rewrite len_take in Hr.
+    destruct (N.ltb_spec (len d) p) as [H1|H1].
+    + set (c := N.min (len d) p - len rest). assert (Hc : c <= len d /\ c < p) by (unfold c; lia).
+      destruct (Hw (vars_of_pairs vars ps) (p - c) q) as (W1 & W2 & W3).
+      split.
+      * intros _. split; [apply whole_nil|]. intros u. rewrite counts_nil. cbn [snd]. rewrite padd_0, HWS.
+        unfold WS. rewrite W1, W2, W3.
+        rewrite (WK_adv true p q (d ++ u) c) by (rewrite ?len_app; try lia; right; lia).
+        rewrite drop_app_le by lia. reflexivity.
+      * intros _. unfold WS. rewrite W1, W2, W3. rewrite WK_prem by lia. rewrite len_drop.
+        destruct (N.ltb_spec (len d - c) (p - c)); [reflexivity|lia].
+    + pose proof (finish_law wrap nxt q (vars_of_pairs vars ps) (drop p d) (write_response (vars_of_pairs vars ps) maxc) Hw Hn) as F.
+      assert (PRE : forall u, WS s (d ++ u) = padd 1 (WK false 0 q (drop p d ++ u))).
+      { intros u. rewrite HWS, WK_prem by exact Hp. rewrite len_app.
+        destruct (N.ltb_spec (len d + len u) p); [lia|]. rewrite drop_app_le by lia. reflexivity. }
+      destruct (values_finish wrap nxt q (vars_of_pairs vars ps) (drop p d) (write_response (vars_of_pairs vars ps) maxc))
+        as [[r s'|r s'|n] o']; [| |exact I].
+      * destruct F as (-> & F0 & F1 & F2). split; [|intros _; exact F2]. intros _. split; [apply gv_whole|].
+        intros u. rewrite gv_counts, PRE, F1. reflexivity.
+      * destruct F as (-> & F0 & F1). intros _. split; [apply gv_whole|]. intros u. rewrite gv_counts, PRE, F1. reflexivity.
+  - assert (Hp0 : p = 0) by lia. rewrite Hp0 in HWS.
+    pose proof (finish_law wrap nxt q vars d [] Hw Hn) as F.
+    assert (PRE : forall u, WS s (d ++ u) = WK false 0 q (d ++ u)) by (intros u; rewrite HWS; apply WK_k0).
+    destruct (values_finish wrap nxt q vars d []) as [[r s'|r s'|n] o']; [| |exact I].
+    + destruct F as (-> & F0 & F1 & F2). split; [|intros _; exact F2]. intros _. split; [apply whole_nil|].
+      intros u. rewrite counts_nil, PRE, F1. cbn [snd]. symmetry. apply padd_0.
+    + destruct F as (-> & F0 & F1). intros _. split; [apply whole_nil|]. intros u. rewrite counts_nil, PRE, F1. cbn [snd]. symmetry. apply padd_0.
+Qed.
+
+(* the header of a record: what try_head returns, in terms of the walk *)
+Lemma try_head_law self (skip : N -> N -> state) d : (forall p q, plain (skip p q) p q) -> bytes_ok d ->
+  match try_head self skip d with
+  | HeadOk t id cl pl => HEADER_LEN <= len d /\ id < 65536 /\ forall k u, WK k 0 0 (d ++ u) = WK (gvk t id) cl pl (drop 8 d ++ u)
+  | HeadRet (Break r s') o => o = [] /\ r = d /\ ((s' = self /\ len d < HEADER_LEN) \/ is_fatal s' = true)
+  | HeadRet (Continue r s') o => is_fatal s' = false /\ whole o /\
+      forall k u, WK k 0 0 (d ++ u) = padd (snd (counts o)) (WS s' (r ++ u))
+  | HeadRet (PANIC _) _ => True
+  end.
+Proof.
+  intros Hsk Hb. destruct (N.ltb_spec (len d) 8) as [Hl|Hl].
+  - rewrite try_head_short by exact Hl. split; [reflexivity|]. split; [reflexivity|]. left. split; [reflexivity|exact Hl].
+  - rewrite try_head_long by exact Hl. pose proof (bytes_ok_take 8 d Hb) as Hh.
+    assert (HW : forall k u, WK k 0 0 (d ++ u) = wk_hd (take 8 d) (drop 8 d ++ u)) by (intros k u; apply WK_head_app; exact Hl).
+    unfold wk_hd in HW. destruct (hdr_decode (take 8 d)) as [t id cl pl|v|t] eqn:E.
+    + split; [exact Hl|]. split; [|exact HW]. apply hdr_decode_ok_inv in E. destruct E as (_ & -> & _ & _).
+      apply be16_lt; apply nthN_lt; exact Hh.
+    + split; [reflexivity|]. split; [reflexivity|]. right. reflexivity.
+    + apply hdr_decode_badtype_inv in E. subst t.
+      assert (H1 : nthN (take 8 d) 1 < 256) by (apply nthN_lt; exact Hh).
+      assert (H2 : be16 (nthN (take 8 d) 2) (nthN (take 8 d) 3) < 65536) by (apply be16_lt; apply nthN_lt; exact Hh).
+      pose proof (Hsk (be16 (nthN (take 8 d) 4) (nthN (take 8 d) 5)) (nthN (take 8 d) 6)) as Hp.
+      split; [apply Hp|].
+      split; [apply unk_whole; assumption|]. intros k u. rewrite (unk_counts _ _ H1 H2), HW, (WS_plain _ _ _ _ Hp). reflexivity.
+Qed.
+
+Lemma WS_Header w : WS Header w = WK false 0 0 w.
+Proof. reflexivity. Qed.
+
+Lemma header_law d : d_law Header d (header_drive d).
+Proof.
+  intros Hb. rewrite header_drive_eq.
+  pose proof (try_head_law Header header_skip_to d header_skip_plain Hb) as TH.
+  assert (TRIV : whole [] /\ forall u, WS Header (d ++ u) = padd (snd (counts [])) (WS Header (d ++ u))).
+  { split; [apply whole_nil|]. intros u. rewrite counts_nil. cbn [snd]. symmetry. apply padd_0. }
+  destruct (try_head Header header_skip_to d) as [t id cl pl|f o].
+  - destruct TH as (Hl & Hid & HW). unfold header_body.
+    destruct (N.eqb_spec t RT_BeginRequest) as [Et|Et].
+    + subst t. change (gvk RT_BeginRequest id) with false in HW.
+      destruct (N.eqb_spec BeginRequest_LEN cl) as [Ecl|Ecl]; cbn [negb]; [|split; intros H; discriminate H].
+      subst cl. destruct (N.ltb_spec (len d) 16) as [H16|H16].
+      * split; [intros _; exact TRIV|]. intros _. rewrite WS_Header. specialize (HW false []). rewrite !app_nil_r in HW.
+        rewrite HW. rewrite WK_prem by (unfold BeginRequest_LEN; lia). rewrite len_drop.
+        destruct (N.ltb_spec (len d - 8) BeginRequest_LEN) as [_|Hc]; [reflexivity|unfold BeginRequest_LEN in Hc; lia].
+      * assert (ADV : forall u, WS Header (d ++ u) = WK false 0 pl (drop 16 d ++ u)).
+        { intros u. rewrite WS_Header, HW.
+          rewrite (WK_adv false BeginRequest_LEN pl (drop 8 d ++ u) 8)
+            by (rewrite ?len_app, ?len_drop; unfold BeginRequest_LEN; try lia; left; reflexivity).
+          change (BeginRequest_LEN - 8) with 0. rewrite drop_app_le by (rewrite len_drop; lia). rewrite drop_drop.
+          change (8 + 8) with 16. reflexivity. }
+        destruct (begin_decode (slice 8 16 d)) as [role [[role' flags]|]].
+        -- destruct (id =? 0); [split; intros H; discriminate H|].
+           intros _. split; [apply whole_nil|]. intros u. rewrite counts_nil, ADV. cbn [snd]. rewrite padd_0. reflexivity.
+        -- intros _. split; [apply end_whole; [unfold PS_UnknownRole; lia|exact Hid]|]. intros u.
+           rewrite (end_counts PS_UnknownRole id ltac:(unfold PS_UnknownRole; lia) Hid), padd_0, ADV.
+           rewrite (WS_plain _ _ _ _ (header_skip_plain 0 pl)). reflexivity.
+    + destruct ((t =? RT_GetValues) && hdr_is_management t id) eqn:Hgv.
+      * intros _. split; [apply whole_nil|]. intros u. rewrite counts_nil, WS_Header, HW. cbn [snd]. rewrite padd_0.
+        unfold gvk. rewrite Hgv. reflexivity.
+      * intros _. split; [apply whole_nil|]. intros u. rewrite counts_nil, WS_Header, HW. cbn [snd]. rewrite padd_0.
+        unfold gvk. rewrite Hgv. rewrite (WS_plain _ _ _ _ (header_skip_plain cl pl)). reflexivity.
+  - destruct f as [r s'|r s'|n]; [| |exact I].
+    + destruct TH as (-> & -> & [[-> Hl]|Hf]).
+      * split; [intros _; exact TRIV|]. intros _. rewrite WS_Header. apply WK_lt8. exact Hl.
+      * split; intros H; [rewrite Hf in H; discriminate H|]. destruct s'; try discriminate Hf. discriminate H.
+    + destruct TH as (Hnf & Ho & HW). intros _. split; [exact Ho|]. intros u. rewrite WS_Header. apply HW.
+Qed.
+
+Lemma sh_facts i t id cl pl : id < 65536 ->
+  whole (sh_out i t id cl pl) /\ snd (counts (sh_out i t id cl pl)) = 0 /\
+  is_fatal (sh_state i t id cl pl) = false /\
+  forall w, WS (sh_state i t id cl pl) w = WK (gvk t id) cl pl w.
+Proof.
+  intros Hid. unfold sh_out, sh_state. cbv zeta.
+  destruct ((t =? RT_Params) && (id =? r_id (ireq i))) eqn:E1.
+  { apply andb_true_iff in E1. destruct E1 as [E1 _]. apply N.eqb_eq in E1. subst t. change (gvk RT_Params id) with false.
+    split; [apply whole_nil|]. split; [reflexivity|]. destruct (N.eqb_spec cl 0) as [->|Hc].
+    - split; [apply (done_skip_plain (ireq i) 0 pl)|]. intros w. apply (WS_plain _ _ _ _ (done_skip_plain (ireq i) 0 pl)).
+    - split; reflexivity. }
+  destruct ((t =? RT_AbortRequest) && (id =? r_id (ireq i))) eqn:E2.
+  { apply andb_true_iff in E2. destruct E2 as [E2 E2']. apply N.eqb_eq in E2. apply N.eqb_eq in E2'. subst t. rewrite <- E2'.
+    change (gvk RT_AbortRequest id) with false.
+    split; [apply end_whole; [unfold PS_RequestComplete; lia|exact Hid]|].
+    split; [apply end_counts; [unfold PS_RequestComplete; lia|exact Hid]|].
+    split; [apply (header_skip_plain cl pl)|]. intros w. apply (WS_plain _ _ _ _ (header_skip_plain cl pl)). }
+  destruct ((t =? RT_BeginRequest) && negb (id =? r_id (ireq i))) eqn:E3.
+  { apply andb_true_iff in E3. destruct E3 as [E3 _]. apply N.eqb_eq in E3. subst t. change (gvk RT_BeginRequest id) with false.
+    split; [apply end_whole; [unfold PS_CantMpxConn; lia|exact Hid]|].
+    split; [apply end_counts; [unfold PS_CantMpxConn; lia|exact Hid]|].
+    split; [apply (params_skip_plain i cl pl)|]. intros w. apply (WS_plain _ _ _ _ (params_skip_plain i cl pl)). }
+  split; [apply whole_nil|]. split; [reflexivity|]. unfold gvk.
+  destruct ((t =? RT_GetValues) && hdr_is_management t id).
+  - split; reflexivity.
+  - split; [apply (params_skip_plain i cl pl)|]. intros w. apply (WS_plain _ _ _ _ (params_skip_plain i cl pl)).
+Qed.
+
+Lemma WS_Params i p q w : WS (Params i p q) w = WK false p q w.
+Proof. reflexivity. Qed.
+
+Lemma stage_head_law i d : d_law (Params i 0 0) d (stage_head i d).
+Proof.
+  intros Hb. unfold stage_head.
+  pose proof (try_head_law (Params i 0 0) (params_skip_to i) d (params_skip_plain i) Hb) as TH.
+  destruct (try_head (Params i 0 0) (params_skip_to i) d) as [t id cl pl|f o].
+  - destruct TH as (Hl & Hid & HW). destruct (sh_facts i t id cl pl Hid) as (F1 & F2 & F3 & F4).
+    intros _. split; [exact F1|]. intros u. rewrite F2, padd_0, F4, WS_Params. apply HW.
+  - destruct f as [r s'|r s'|n]; [| |exact I].
+    + destruct TH as (-> & -> & [[-> Hl]|Hf]).
+      * split.
+        -- intros _. split; [apply whole_nil|]. intros u. rewrite counts_nil. cbn [snd]. symmetry. apply padd_0.
+        -- intros _. rewrite WS_Params. apply WK_lt8. exact Hl.
+      * split; intros H; [rewrite Hf in H; discriminate H|]. destruct s'; try discriminate Hf. discriminate H.
+    + destruct TH as (Hnf & Ho & HW). intros _. split; [exact Ho|]. intros u. rewrite WS_Params. apply HW.
+Qed.
+
+Lemma stage_pad_law i q d : d_law (Params i 0 q) d (stage_pad i q d).
+Proof.
+  unfold stage_pad. destruct (N.ltb_spec 0 q) as [Hq|Hq].
+  - destruct (N.leb_spec (len d) q) as [Hl|Hl].
+    + intros _. split.
+      * intros _. split; [apply whole_nil|]. intros u. rewrite counts_nil. cbn [snd app]. rewrite padd_0, !WS_Params.
+        rewrite (WK_pad_adv false q (d ++ u) (len d)) by (rewrite ?len_app; lia). rewrite drop_len_app. reflexivity.
+      * intros _. rewrite WS_Params, WK_nil. reflexivity.
+    + apply (d_law_pre _ _ (Params i 0 0) (drop q d)); [|apply bytes_ok_drop|apply stage_head_law].
+      intros u. rewrite !WS_Params. rewrite (WK_pad_adv false q (d ++ u) q) by (rewrite ?len_app; lia).
+      rewrite N.sub_diag, drop_app_le by lia. reflexivity.
+  - assert (q = 0) by lia. subst q. apply stage_head_law.
+Qed.
+
+Lemma params_law i p q d : d_law (Params i p q) d (params_drive norm i p q d).
+Proof.
+  rewrite ReqDrive.params_drive_eq. destruct (N.ltb_spec 0 p) as [Hp|Hp].
+  - destruct (N.ltb_spec (len d) p) as [H1|H1].
+    + destruct (parse_stream norm i d false) as [[i' c]|]; [|intros _; exact I].
+      destruct (N.ltb_spec p c) as [|Hc1]; [intros _; exact I|]. destruct (N.ltb_spec (len d) c) as [|Hc2]; [intros _; exact I|].
+      intros _. split.
+      * intros _. split; [apply whole_nil|]. intros u. rewrite counts_nil. cbn [snd]. rewrite padd_0, !WS_Params.
+        rewrite (WK_adv false p q (d ++ u) c) by (rewrite ?len_app; try lia; left; reflexivity).
+        rewrite drop_app_le by lia. reflexivity.
+      * intros _. rewrite WS_Params, WK_prem by lia. rewrite len_drop. destruct (N.ltb_spec (len d - c) (p - c)); [reflexivity|lia].
+    + destruct (parse_stream norm i (take p d) true) as [[i' c]|]; [|intros _; exact I].
+      destruct (negb (c =? p)); [intros _; exact I|].
+      apply (d_law_pre _ _ (Params i' 0 q) (drop p d)); [|apply bytes_ok_drop|apply stage_pad_law].
+      intros u. rewrite !WS_Params. rewrite (WK_adv false p q (d ++ u) p) by (rewrite ?len_app; try lia; left; reflexivity).
+      rewrite N.sub_diag, drop_app_le by lia. reflexivity.
+  - assert (p = 0) by lia. subst p. apply stage_pad_law.
+Qed.
+
+Lemma drive1_law s d : d_law s d (drive1 norm maxc s d).
+Proof.
+  destruct s as [|p q|vars p q|i p q|i p q|i vars p q|r p q|r|e]; cbn [drive1].
+  - apply header_law.
+  - apply (skip_law HeaderSkip Header); [intros; repeat split|repeat split|repeat split].
+  - apply (values_law HeaderValues Header); [intros; repeat split|repeat split|reflexivity..].
+  - apply params_law.
+  - apply (skip_law (ParamsSkip i) (Params i 0 0)); [intros; repeat split|repeat split|repeat split].
+  - apply (values_law (ParamsValues i) (Params i 0 0)); [intros; repeat split|repeat split|reflexivity..].
+  - apply (skip_law (DoneSkip r) (Done r)); [intros; repeat split|repeat split|repeat split].
+  - intros _. split; [|intros H; discriminate H]. intros _. split; [apply whole_nil|]. intros u. rewrite counts_nil. cbn [snd].
+    symmetry. apply padd_0.
+  - intros _. split; intros H; discriminate H.
+Qed.
+
+Lemma drive_law : forall f s d out r s' o, state_ok s -> bytes_ok d -> len d < SIZE_LIMIT ->
+  drive norm maxc f s d out = DOk r s' o -> is_fatal s' = false ->
+  exists o1, o = out ++ o1 /\ whole o1 /\ (forall u, WS s (d ++ u) = padd (snd (counts o1)) (WS s' (r ++ u))) /\
+             (is_final s' = false -> fst (WS s' r) = 0).
+Proof.
+  induction f as [|f IH]; intros s d out r s' o Hs Hok Hsz E Hnf; [discriminate E|].
+  rewrite drive_S in E. pose proof (drive1_post norm maxc (F_S1 norm) s d Hs Hok Hsz) as P.
+  pose proof (drive1_law s d Hok) as L.
+  destruct (drive1 norm maxc s d) as [[r0 s0|r0 s0|n] o0]; cbn [step_post] in P.
+  - injection E as <- <- <-. destruct L as [L1 L2]. destruct (L1 Hnf) as [A B]. exists o0.
+    split; [reflexivity|]. split; [exact A|]. split; [exact B|exact L2].
+  - destruct P as (P1 & P2 & P3 & P4).
+    assert (Hnf0 : is_fatal s0 = false).
+    { destruct s0; try reflexivity. exfalso. destruct r0 as [|b r0']; [injection E as _ <- _; discriminate Hnf|].
+      destruct f as [|f']; [discriminate E|]. cbn [drive is_final] in E. injection E as _ <- _. discriminate Hnf. }
+    destruct (L Hnf0) as [A B]. destruct r0 as [|b r0'].
+    + injection E as <- <- <-. exists o0. split; [reflexivity|]. split; [exact A|]. split; [exact B|].
+      intros _. unfold WS. rewrite WK_nil. reflexivity.
+    + destruct (IH s0 (b :: r0') (out ++ o0) r s' o (proj1 P1) (suffix_ok _ _ P3 Hok)
+                  ltac:(pose proof (suffix_len _ _ P3); lia) E Hnf) as (o1 & E1 & W1 & L1 & S1).
+      exists (o0 ++ o1). split; [rewrite E1, app_assoc; reflexivity|]. split; [apply whole_app; assumption|].
+      split; [|exact S1]. intros u. rewrite B, L1, padd_padd, (counts_app_w o0 o1 A W1). reflexivity.
+  - contradiction.
+Qed.
+
+(* Parser::parse: the output consists of complete records, which are exactly what the walk loses; and a call that
+   is not done leaves nothing owed for the bytes it holds *)
+Theorem parse_law p new p' dn out : parser_ok p -> bytes_ok new -> len new <= input_space p ->
+  parse norm maxc p new = POk p' dn out -> is_fatal (st p') = false ->
+  whole out /\ (forall u, WS (st p) (held p ++ new ++ u) = padd (snd (counts out)) (WS (st p') (held p' ++ u))) /\
+  (dn = false -> fst (WS (st p') (held p')) = 0).
+Proof.
+  intros Hp Hn Hsp E Hnf.
+  destruct (parse_spec norm maxc (F_S1 norm) p new Hp Hn Hsp) as (rest & s' & o' & Ed & G1 & G2 & G3 & G4 & G5 & _ & Hparse).
+  rewrite E in Hparse. destruct Hp as (Hs & _ & Hh & Hl & Hc). unfold input_space in Hsp.
+  destruct (negb (is_final s') && (len rest =? cap p)); injection Hparse as -> -> ->; [discriminate Hnf|].
+  cbn [st held] in *. unfold drive_all in Ed.
+  apply drive_law in Ed; [|exact Hs|apply bytes_ok_app; split; assumption|rewrite len_app; lia|exact Hnf].
+  destruct Ed as (o1 & E1 & W1 & L1 & S1). cbn [app] in E1. subst o1.
+  split; [exact W1|]. split; [intros u; rewrite app_assoc; apply L1|]. intros Hd. apply S1. exact Hd.
+Qed.
+End WalkRequest.
